@@ -34,7 +34,7 @@ Proof.
     + unfold bw_direct, sink_write. cbn [bw_sink bw_buf s_limit s_got].
       eexists. split; [reflexivity|]. split; [split; reflexivity|].
       cbn [bw_sink bw_buf s_got]. rewrite !app_nil_r. reflexivity.
-    + set (avail := (buf_size - length (c :: buf))%nat).
+    + set (avail := (buf_size - length (c :: buf))%nat). clearbody avail.
       set (w0 := {| bw_buf := (c :: buf) ++ firstn avail p; bw_err := false;
                     bw_sink := {| s_limit := None; s_got := got |} |}).
       assert (K0 : bw_ok w0) by (split; reflexivity).
@@ -48,7 +48,8 @@ Proof.
         unfold bw_direct, sink_write. cbn [bw_sink bw_buf s_limit s_got].
         eexists. split; [reflexivity|]. split; [split; reflexivity|].
         cbn [bw_sink bw_buf s_got]. rewrite G1. unfold bw_content, w0. cbn [bw_sink bw_buf s_got].
-        rewrite app_nil_r. rewrite <- !app_assoc. rewrite firstn_skipn. reflexivity.
+        rewrite ?app_nil_r. rewrite <- ?app_assoc. cbn [app]. rewrite <- ?app_assoc.
+        rewrite firstn_skipn. reflexivity.
 Qed.
 
 Lemma bw_chunks_ok : forall cs w, bw_ok w ->
